@@ -2,8 +2,8 @@ package props
 
 import (
 	"os"
-	"strings"
 	"path/filepath"
+	"strings"
 
 	"verifmc/core"
 	"verifmc/drive"
